@@ -47,7 +47,14 @@ class Contract:
         private=(),
         join_outcomes=True,
         split_on=(),
+        when_facts=False,
     ):
+        # True: the facts recorded while a `raises ... when` condition is evaluated at a call site (types of heap reads, identity of
+        # objects the expression allocates) are kept on the calling state and its forks.  Without them the condition also holds in
+        # models where an object allocated by the evaluation aliases a pre-existing one, which only costs completeness (spurious
+        # refutations in callers that restate the condition).  Opt-in, so that the obligations of the functions verified before this
+        # option existed are generated exactly as before.
+        self.when_facts = when_facts
         self.name = name
         self.params = params or {}
         self.requires = list(requires)
